@@ -35,6 +35,10 @@ type Zoo struct {
 	D   time.Duration
 	TwV int
 	Tw  Twicer `json:"-"` // always Elem{V: TwV, Name: "tw"}
+	// MX: keys of several Go types that are equal as numbers of the language (1 as int64, float64, uint8) plus an
+	// int key and a string key; built from MXV, never serialised
+	MX  map[interface{}]string `json:"-"`
+	MXV int
 }
 
 func (z Zoo) Cnt() int { return len(z.IS) + len(z.By) }
@@ -170,6 +174,13 @@ var zooLeaves = func() []ZooLeaf {
 	add("Z.D.String()", TStr, func(z *Zoo) (interface{}, string) { return zi(z.D.String()) })
 	add("Z.Tw.Twice()", TInt, func(z *Zoo) (interface{}, string) { return zi(z.TwV * 2) })
 	add(`Z.Tw.Label("p")`, TStr, func(z *Zoo) (interface{}, string) { return zi("ptw") })
+	// a map keyed by interface{}: a key is found by its Go value (type and number), never by numeric equality
+	add("Z.MX[1]", TStr, func(z *Zoo) (interface{}, string) { return zi(z.MX[1]) })
+	add("Z.MX[2]", TStr, func(z *Zoo) (interface{}, string) { return zi(z.MX[2]) })
+	add(`Z.MX["k"]`, TStr, func(z *Zoo) (interface{}, string) { return zi(z.MX["k"]) })
+	add("(1 in Z.MX)", TBool, func(z *Zoo) (interface{}, string) { _, ok := z.MX[1]; return zi(ok) })
+	add("(2 in Z.MX)", TBool, func(z *Zoo) (interface{}, string) { _, ok := z.MX[2]; return zi(ok) })
+	add("len(Z.MX)", TInt, func(z *Zoo) (interface{}, string) { return zi(len(z.MX)) })
 	add("Z.Cnt()", TInt, func(z *Zoo) (interface{}, string) { return zi(z.Cnt()) })
 	return out
 }()
@@ -257,7 +268,19 @@ func genZoo(t *rapid.T) Zoo {
 	z.R = rune(rapid.SampledFrom([]int32{0, 'a', 'é', '日', -1, 0x10FFFF}).Draw(t, "Z.R"))
 	z.D = time.Duration(rapid.SampledFrom([]int64{0, 1, 1500, int64(time.Second), int64(90 * time.Minute), -int64(time.Millisecond)}).Draw(t, "Z.D"))
 	z.TwV = genSmallInt(t, "Z.TwV")
+	z.MXV = rapid.IntRange(0, 3).Draw(t, "Z.MXV")
 	return z
+}
+
+// BuildMX fills the interface-keyed map from MXV.
+func (z *Zoo) BuildMX() {
+	z.MX = map[interface{}]string{int64(1): "i64", float64(1): "f64", uint8(1): "u8", "k": "str"}
+	if z.MXV&1 != 0 {
+		z.MX[2] = "int2"
+	}
+	if z.MXV&2 != 0 {
+		z.MX[float32(2)] = "f32"
+	}
 }
 
 // ZooKeys lists the keys of all leaves (sorted), for coverage reports.
